@@ -10,4 +10,5 @@ Extraction "../ocaml/c10/model.ml"
   all_ops route_of reduce_route
   sfv_cmp_elem sfv_binop_elem sf_get sf_materialise sfv_index
   view_index materialise np_index chain np_chain is_value reduce_plan
+  sfv_ufunc_where concatenate_views concat_grid_first
   all_sub_fields.
